@@ -1,5 +1,6 @@
 CONSTANTS
   NSlots = 26
+  Glob = "calls"
   Abs = TRUE
   Lean = FALSE
   Vocab = "all"
